@@ -63,6 +63,9 @@ type c15Spec struct {
 	// over https ("https").
 	Redirect   string `json:"redirect,omitempty"`
 	RedirectTo string `json:"redirect_to,omitempty"`
+	// ClientPolicy: the application's http.Client has a redirect policy of its own ("at most 5 hops"), which says
+	// nothing about schemes or hosts.
+	ClientPolicy bool `json:"client_policy,omitempty"`
 }
 
 var (
@@ -181,6 +184,7 @@ func genC15(r *vh.Rand, idx int) c15Spec {
 	}
 	if r.Chance(1, 6) {
 		s.Redirect, s.RedirectTo = r.Choose("prm", "asm", "asm", "dcr", "token", "token"), r.Choose("http", "http", "https")
+		s.ClientPolicy = r.Bool()
 	}
 	return s
 }
@@ -990,6 +994,14 @@ func runC15(c *vh.Case, spec c15Spec) {
 
 	// ---- the handler
 	cfg := &auth.AuthorizationCodeHandlerConfig{RedirectURL: "http://localhost:3000/cb", Client: &http.Client{Transport: w}, RequestRefreshToken: spec.Refresh}
+	if spec.ClientPolicy {
+		cfg.Client.CheckRedirect = func(req *http.Request, via []*http.Request) error {
+			if len(via) >= 5 {
+				return errors.New("stopped after 5 redirects")
+			}
+			return nil
+		}
+	}
 	reg := spec.Reg
 	if reg == "all" {
 		reg = "cimd+prereg+dcr"
